@@ -1,5 +1,5 @@
 /* LD_PRELOAD shim: in processes named "delta", the N-th write(2) on an fd other than 2 (and all later ones)
- * fails with EPIPE, as if the reader had gone away.  WRITEFAULT_N=0 only counts.  The number of write calls
+ * fails with EPIPE, as if the reader had gone away.  WRITEFAULT_N=0 only counts.  WRITEFAULT_SHORT=N makes the N-th write a short write.  The number of write calls
  * seen is stored in WRITEFAULT_LOG at exit. */
 #define _GNU_SOURCE
 #include <dlfcn.h>
@@ -14,6 +14,7 @@
 extern char *program_invocation_short_name;
 static long counter = 0;
 static long fail_at = -1;
+static long short_at = -1;     /* WRITEFAULT_SHORT=N: the N-th write transfers only part of its bytes (a short write, as after a signal) */
 static int active = -1;
 static ssize_t (*real_write)(int, const void *, size_t) = NULL;
 static ssize_t (*real_writev)(int, const struct iovec *, int) = NULL;
@@ -25,6 +26,7 @@ static void init(void) {
     const char *n = getenv("WRITEFAULT_N");
     active = (n != NULL && strcmp(program_invocation_short_name, "delta") == 0) ? 1 : 0;
     if (n) fail_at = atol(n);
+    { const char *s_ = getenv("WRITEFAULT_SHORT"); if (s_) short_at = atol(s_); }
 }
 
 static void dump(void) {
@@ -53,11 +55,15 @@ static int should_fail(int fd) {
 ssize_t write(int fd, const void *buf, size_t n) {
     init();
     if (should_fail(fd)) { errno = EPIPE; return -1; }
+    if (active == 1 && fd != 2 && short_at > 0 && counter == short_at && n > 1)
+        return real_write(fd, buf, n / 2);      /* the caller has to write the rest itself */
     return real_write(fd, buf, n);
 }
 
 ssize_t writev(int fd, const struct iovec *iov, int cnt) {
     init();
     if (should_fail(fd)) { errno = EPIPE; return -1; }
+    if (active == 1 && fd != 2 && short_at > 0 && counter == short_at && cnt > 0 && iov[0].iov_len > 1)
+        return real_write(fd, iov[0].iov_base, iov[0].iov_len / 2);
     return real_writev(fd, iov, cnt);
 }
